@@ -110,6 +110,15 @@ Rename(c, n) ==
 \* replace_cell(old, new) in its four overloads: new takes old's place; every reference of a
 \* member cell that designated old designates new afterwards.
 KindOf(o) == IF o \in Cells THEN "cell" ELSE "raw"
+\* Two libraries may share cells (Library::copy_from(lib, false)).  When the OTHER library replaces
+\* member X by an object of the other kind carrying X's name, the shared cells' references to X
+\* now point at that object, which is not a member here: a STALE designation of this library's X.
+\* gdstk resolves it by name: each replace_cell overload matches references of old's own kind by
+\* pointer and references of the other kind by the target's name, and re-binds (and re-types)
+\* both to the new object.
+StaleFor(r, old) == /\ r.kind # "name" /\ r.kind # KindOf(old)
+                    /\ r.tgt \notin members \cup rmembers
+                    /\ name[r.tgt] = name[old]
 EverReplaced == {hist[i].a : i \in {j \in DOMAIN hist : hist[j].op = "replace"}}
 Replace(old, new) ==
     /\ old \in members \cup rmembers
@@ -132,7 +141,7 @@ Replace(old, new) ==
            rmem2 == (rmembers \ {old}) \cup (IF new \in Raws THEN {new} ELSE {})
            Rew(r) == IF r.kind = "name"
                      THEN (IF r.tgt = name[old] THEN Ref("name", name[new]) ELSE r)
-                     ELSE (IF r.tgt = old THEN Ref(KindOf(new), new) ELSE r)
+                     ELSE (IF r.tgt = old \/ StaleFor(r, old) THEN Ref(KindOf(new), new) ELSE r)
        IN  /\ members' = mem2 /\ rmembers' = rmem2
            /\ refs' = [x \in Cells |->
                          IF x \in mem2 THEN [i \in DOMAIN refs[x] |-> Rew(refs[x][i])]
@@ -143,7 +152,8 @@ Replace(old, new) ==
                                    DesigIn(mem2, rmem2, name, Rew(refs[x][i]))]
                            ELSE IF x \in mem2
                            THEN [i \in DOMAIN intent[x] |->
-                                   IF intent[x][i] = old THEN new ELSE intent[x][i]]
+                                   IF intent[x][i] = old \/ StaleFor(refs[x][i], old)
+                                   THEN new ELSE intent[x][i]]
                            ELSE intent[x]]
     /\ UNCHANGED <<name, shapes, labels, rawdeps>>
     /\ hist' = Append(hist, H("replace", old, new))
@@ -203,6 +213,10 @@ ReplaceAbsent(old, new) ==
     \* no by-name reference carries either name (the name rewriting is then without effect)
     /\ \A x \in members : \A i \in DOMAIN refs[x] :
           ~(refs[x][i].kind = "name" /\ refs[x][i].tgt \in {name[old], name[new]})
+    \* (the absent cell's name is not the name of a raw cell that member cells reference: the name
+    \* match of the other-kind references would then re-bind references that never meant old)
+    /\ \A x \in members : \A i \in DOMAIN refs[x] :
+          refs[x][i].kind = "raw" => name[refs[x][i].tgt] # name[old]
     /\ LET Rew(r) == IF r.kind = "cell" /\ r.tgt = old THEN Ref("cell", new) ELSE r IN
        /\ refs' = [x \in Cells |-> IF x \in members THEN [i \in DOMAIN refs[x] |-> Rew(refs[x][i])] ELSE refs[x]]
        /\ intent' = [x \in Cells |-> IF x \in members
